@@ -445,9 +445,9 @@ changed its pull/push role or the set of operators sharing its subgraph in the v
         return;
     }
     let tier = ctx.tier();
-    let n_groups = tier.pick(32, 500);
+    let n_groups = tier.pick(16, 500);
     let n_hist = tier.pick(6, 12);
-    let chunk = tier.pick(32, 60);
+    let chunk = tier.pick(16, 60);
     ctx.floor = tier.pick(20, 300);
     let mut rng = Rng::new(ctx.seed_for(SUB));
     let mut cov = Coverage::default();
@@ -480,7 +480,10 @@ changed its pull/push role or the set of operators sharing its subgraph in the v
                 descs.push(vec![format!("tee() with a null() branch inserted before {}", cell.label)]);
                 origins.push(vec![]);
             }
-            if let Some(v) = make_variant(&mut rng0, &base, &a, 1) {
+            // quick tier: one twin per cell (the push-side twin for unary operators, otherwise a
+            // random rewrite); thorough: both
+            let want_rewrite = programs.len() < 2 || tier == vcommon::Tier::Thorough;
+            if let (true, Some(v)) = (want_rewrite, make_variant(&mut rng0, &base, &a, 1)) {
                 if !programs.contains(&v.prog) {
                     programs.push(v.prog);
                     descs.push(v.desc);
